@@ -502,4 +502,57 @@ Section Proofs.
       rewrite copy_sigs_exact by (rewrite map_length; reflexivity).
       rewrite map_map. f_equal. apply map_ext. intros [a root]. apply sig_or_zero_honest.
   Qed.
+
+  (* ---------------------------------------------------------------------------------------- *)
+  (* Completeness of a whole batch.                                                             *)
+
+  Definition is_dist {A} (it : account * A) : bool := a_dist (fst it).
+  Definition not_dist {A} (it : account * A) : bool := negb (a_dist (fst it)).
+
+  Lemma split_from_filter {A} (items : list (account * A)) : forall i0 o om d dm,
+    split_from i0 items = ((o, om), (d, dm)) -> o = filter not_dist items /\ d = filter is_dist items.
+  Proof.
+    induction items as [|it r IH]; intros i0 o om d dm; cbn [split_from filter].
+    - intro Hs; injection Hs as <- <- <- <-. auto.
+    - destruct (split_from (S i0) r) as [[o' om'] [d' dm']] eqn:Hr.
+      destruct (IH _ _ _ _ _ Hr) as [-> ->]. unfold not_dist, is_dist.
+      destruct (a_dist (fst it)); cbn [negb]; intro Hs; injection Hs as <- <- <- <-; auto.
+  Qed.
+
+  Lemma sign_split_complete {A} (sign_group : list (account * A) -> res (list sig)) (f : account * A -> sig)
+        (items : list (account * A)) :
+    (filter not_dist items <> [] -> sign_group (filter not_dist items) = Ok (map f (filter not_dist items))) ->
+    (filter is_dist items <> [] -> sign_group (filter is_dist items) = Ok (map f (filter is_dist items))) ->
+    sign_split sig zero_sig sign_group items = Ok (map f items).
+  Proof.
+    intros Ho Hd. unfold sign_split.
+    destruct (split_from 0 items) as [[o om] [d dm]] eqn:Hs.
+    pose proof (reassemble f items 0 o om d dm (repeat zero_sig (length items)) Hs) as Hre.
+    rewrite repeat_length in Hre. specialize (Hre (Nat.le_refl _)).
+    cbn [firstn app Nat.add] in Hre. rewrite skipn_all_repeat, app_nil_r in Hre.
+    destruct (split_from_bounds _ _ _ _ _ _ Hs) as (_ & _ & Hlo & Hld).
+    destruct (split_from_filter _ _ _ _ _ _ Hs) as [Eo Ed]. rewrite <- Eo in Ho. rewrite <- Ed in Hd.
+    destruct o as [|o1 o'].
+    - destruct om; [|discriminate].
+      destruct d as [|d1 d'].
+      + destruct dm; [|discriminate]. rewrite <- Hre. reflexivity.
+      + rewrite Hd by discriminate. rewrite <- Hre. reflexivity.
+    - rewrite Ho by discriminate.
+      destruct d as [|d1 d'].
+      + destruct dm; [|discriminate]. rewrite <- Hre. reflexivity.
+      + rewrite Hd by discriminate. rewrite <- Hre. reflexivity.
+  Qed.
+
+  Definition uniform (g : list (account * N)) : Prop :=
+    Forall (fun it => local_account (fst it) = true) g \/ Forall (fun it => remote_account (fst it) = true) g.
+
+  Lemma sign_roots_by_account_type_complete accs roots domain :
+    length accs = length roots ->
+    uniform (filter not_dist (combine accs roots)) ->
+    uniform (filter is_dist (combine accs roots)) ->
+    sign_roots_by_account_type H sig zero_sig E accs roots domain = Ok (map (item_sig domain) (combine accs roots)).
+  Proof.
+    intros Hlen Uo Ud. unfold sign_roots_by_account_type. rewrite Hlen, Nat.eqb_refl. cbn [negb].
+    apply sign_split_complete; intro Hne; apply sign_roots_multi_uniform; assumption.
+  Qed.
 End Proofs.
